@@ -388,6 +388,7 @@ def judge_A(mol, keep=True):
     nums = list(mol._atoms)
     if len(back._atoms) != len(nums):
         return [('atom-count', f'{len(nums)} -> {len(back._atoms)}')]
+    bad += stale_values(back)
     pos = dict(zip(nums, back._atoms))       # position map: i-th atom <-> i-th atom
     idx = {n: i for i, n in enumerate(nums)}
     donors = set(donor_elements())
@@ -440,12 +441,33 @@ def judge_A(mol, keep=True):
     return bad
 
 
-def judge_B(rd):
-    """RDKit -> chython -> RDKit on the real code."""
+def stale_values(mol):
+    """the molecule an API call returns must answer like a fresh copy of itself: canonical string, hash, stereo-aware order,
+    chiral sets. A difference is a cache left over from an intermediate state of the call (per-object history)."""
+    fresh = mol.copy()
+    bad = []
+    for name, f in (('canonical-string', str), ('hash', hash), ('_chiral_morgan', lambda m: m._chiral_morgan),
+                    ('chiral_tetrahedrons', lambda m: m.chiral_tetrahedrons), ('chiral_cis_trans', lambda m: m.chiral_cis_trans),
+                    ('stereogenic_tetrahedrons', lambda m: m.stereogenic_tetrahedrons),
+                    ('stereogenic_cis_trans', lambda m: m.stereogenic_cis_trans), ('atoms_order', lambda m: m.atoms_order)):
+        try:
+            x, y = f(mol), f(fresh)
+        except Exception as e:
+            bad.append(('stale-cache', f'{name}: raised {type(e).__name__}'))
+            continue
+        if x != y:
+            bad.append(('stale-cache', f'{name} of the returned molecule {x!r} != that of its fresh copy {y!r}'))
+    return bad[:2]
+
+
+def judge_B(rd, ref=None):
+    """RDKit -> chython -> RDKit on the real code. `ref`: what must come back (default: `rd` itself)."""
     from chython.utils.rdkit import to_rdkit_molecule, from_rdkit_molecule
     bad = []
     mol = from_rdkit_molecule(rd)
+    bad += stale_values(mol)
     back = to_rdkit_molecule(mol, keep_mapping=False)
+    src, rd = rd, (rd if ref is None else ref)
     for ra, rb in zip(rd.GetAtoms(), back.GetAtoms()):       # atom order is preserved by both conversions
         for what, x, y in (('element', ra.GetAtomicNum(), rb.GetAtomicNum()), ('charge', ra.GetFormalCharge(), rb.GetFormalCharge()),
                            ('isotope', ra.GetIsotope(), rb.GetIsotope()),
@@ -462,7 +484,7 @@ def judge_B(rd):
     a, b = rdcan(rd), rdcan(back)
     if a != b and not bad:
         bad.append(('rdkit-canonical', f'{a} -> {b}'))
-    for ra, (n, ca) in zip(rd.GetAtoms(), mol.atoms()):
+    for ra, (n, ca) in zip(src.GetAtoms(), mol.atoms()):
         if (getattr(ca, '_parsed_mapping', None) or 0) != ra.GetAtomMapNum():
             bad.append(('mapping', f'atom {ra.GetIdx()}: map {ra.GetAtomMapNum()} -> parsed_mapping {ca._parsed_mapping}'))
     if rd.GetNumConformers():
@@ -531,19 +553,76 @@ def readers_agree(mol, rd):
     return True
 
 
-def rd_in_domain(rd):
-    """RDKit molecule inside the recorded domain of the bridge."""
-    from rdkit.Chem import BondType, ChiralType
+def strip_unsupported(rd):
+    """copy of an RDKit molecule WITHOUT the stereo labels chython has no stereogenic unit for (recorded domain): chiral tags on
+    non-carbon atoms, on charged / radical carbons, on carbons bonded to a metal, on carbons with fewer than three non-hydrogen
+    (any isotope) neighbours or with double / aromatic bonds; E/Z on bonds with an end of more than three neighbours or an end whose
+    substituents are all hydrogen isotopes. Returns (molecule, number of labels removed). Everything chython CAN hold stays and
+    must survive the bridge — whatever the atom order puts before or after the removed ones."""
+    from rdkit import Chem
+    from rdkit.Chem import ChiralType, BondStereo
+    from chython.periodictable import Element
+    r = Chem.RWMol(rd)
+    k = 0
+
+    def metal(a):
+        try:
+            return is_metal(Element.from_atomic_number(a.GetAtomicNum())())
+        except Exception:
+            return False
+    for a in r.GetAtoms():
+        if a.GetChiralTag() == ChiralType.CHI_UNSPECIFIED:
+            continue
+        nb = list(a.GetNeighbors())
+        heavy = sum(1 for x in nb if x.GetAtomicNum() != 1)
+        ok = (a.GetAtomicNum() == 6 and a.GetFormalCharge() == 0 and a.GetNumRadicalElectrons() == 0 and heavy >= 3
+              and not any(metal(x) for x in nb) and all(str(b.GetBondType()) == 'SINGLE' for b in a.GetBonds()))
+        if not ok:
+            a.SetChiralTag(ChiralType.CHI_UNSPECIFIED)
+            k += 1
+    for b in r.GetBonds():
+        if b.GetStereo() == BondStereo.STEREONONE:
+            continue
+        ends = (b.GetBeginAtom(), b.GetEndAtom())
+        ok = True
+        for e, o in (ends, ends[::-1]):
+            subs = [x for x in e.GetNeighbors() if x.GetIdx() != o.GetIdx()]
+            if e.GetDegree() > 3 or not subs or all(x.GetAtomicNum() == 1 for x in subs) or any(metal(x) for x in subs):
+                ok = False
+        if not ok:
+            b.SetStereo(BondStereo.STEREONONE)
+            for e in ends:       # direction marks that only served this bond
+                for nbb in e.GetBonds():
+                    if nbb.GetIdx() != b.GetIdx() and not any(
+                            x.GetStereo() != BondStereo.STEREONONE for a2 in (nbb.GetBeginAtom(), nbb.GetEndAtom())
+                            for x in a2.GetBonds() if x.GetIdx() not in (b.GetIdx(), nbb.GetIdx())):
+                        nbb.SetBondDir(Chem.BondDir.NONE)
+            k += 1
+    return r.GetMol(), k
+
+
+def rd_representable(rd):
+    """atoms and bonds chython can hold at all (labels aside): at most one radical electron, no dummy atom, bond types `_bond_map` writes."""
+    from rdkit.Chem import BondType
     ok_types = {getattr(BondType, n) for _, n in tables()['bond_map']}
     for a in rd.GetAtoms():
         if a.GetNumRadicalElectrons() > 1 or a.GetAtomicNum() == 0:
             return False
-        if a.GetChiralTag() != ChiralType.CHI_UNSPECIFIED:
-            if a.GetAtomicNum() != 6:
-                return False
-            if sum(1 for x in a.GetNeighbors() if x.GetAtomicNum() != 1) < 3:
-                return False  # D/T as a stereo-determining substituent: not representable in chython
     return all(b.GetBondType() in ok_types for b in rd.GetBonds())
+
+
+def rd_in_domain(rd):
+    """RDKit molecule wholly inside the recorded domain of the bridge (nothing has to be left behind)."""
+    return rd_representable(rd) and strip_unsupported(rd)[1] == 0
+
+
+def judge_B_any(rd):
+    """B for a molecule inside the domain; M ("mixed") when it also carries labels chython cannot hold: then what must come back
+    is the molecule without exactly those labels — every other label has to survive, wherever it stands in the atom order."""
+    ref, k = strip_unsupported(rd)
+    if k == 0:
+        return 'B', judge_B(rd)
+    return 'M', judge_B(rd, ref)
 
 
 def judge_X(smi):
@@ -571,6 +650,7 @@ def judge_X(smi):
         back = from_rdkit_molecule(rd)
     except Exception as e:
         return bad + [('raises', f'from_rdkit_molecule raised {type(e).__name__}: {str(e)[:120]}')]
+    bad += stale_values(back)
     try:
         s1, s2 = str(norm(back)), str(norm(mol))
     except Exception as e:
@@ -620,6 +700,16 @@ DEPENDENT = ['C/C=C/[C@H](O)/C=C\\C', 'C/C=C/[C@@H](O)/C=C\\C', 'CC/C=C/[C@](C)(
              'C[C@H](O)[C@H](F)[C@@H](C)O', 'C[C@H](O)[C@@H](F)[C@@H](C)O', 'C[C@H]1C[C@@H](C)C1', 'C[C@H]1C[C@H](C)C1',
              'O[C@H]1C[C@@H](O)C[C@H](O)C1', 'C/C=C/[C@H]1C[C@@H](/C=C\\C)C1', 'C/C=C/C1CC(/C=C\\C)C1',
              'C/C=C/[C@H](O)/C=C\\C.[Na+].[Cl-]', 'C/C=C/[C@H](O)/C=C\\CC[C@H](C)O']
+# a label chython cannot hold next to labels it can, in both orders (RDKit renumbering and random-order re-reads shuffle further)
+_UNSUP = ['C[S@](=O)', 'C[S@@](=O)', 'C[P@](=O)(OC)', 'C[Si@](F)(Cl)', 'C[N@+](CC)(CCC)', '[2H][C@H](F)', '[Fe][C@H](Cl)', '[2H]/C=C/C',
+          'C/N=S(/C)(=O)', 'C[S@](=O)C[P@](=O)(OC)']
+_SUP = ['C[C@H](C)O', 'C[C@@H](N)C(=O)O', 'C/C=C/C', 'C/C=C\\CC', 'C[C@H](O)/C=C/C', 'C[C@H](F)C[C@@H](C)Cl']
+MIXED = [u + sp for u in _UNSUP for sp in _SUP] + \
+        [sp + u[1:] + 'C' for u in _UNSUP[:5] for sp in ('O[C@H](C)C', 'C/C=C/C', 'C[C@H](F)C[C@@H](Cl)C', 'N[C@@H](C(=O)O)C')]
+# constitutionally equivalent stereo elements told apart only by their labels (meso / unlike pairs), acyclic
+MESO = ['C[C@H](F)[C@H](F)C', 'C[C@H](F)[C@@H](F)C', 'C[C@H](O)C[C@@H](C)O', 'C[C@H](O)C[C@H](C)O', 'F[C@H](Cl)CC[C@@H](F)Cl',
+        'F[C@H](Cl)CC[C@H](F)Cl', 'OC(=O)[C@H](O)[C@H](O)C(=O)O', 'C/C=C/C=C\\C', 'C/C=C\\C=C/C', 'C/C=C/CC/C=C\\C',
+        'C[C@H](Cl)/C=C/[C@@H](C)Cl', 'C[C@H](Cl)/C=C\\[C@H](C)Cl', 'N[C@@H](C)C(=O)N[C@H](C)C(=O)O']
 # RDKit molecules below RDKit's own default valence (accepted by both toolkits): the known finding seen from the RDKit side
 LOWVAL_RD = ['C[Si-](C)(C)C', 'C[PH-](C)(C)C', 'C[Cl+](C)C', 'C[SiH2-]C']
 OTHER = [
@@ -671,6 +761,8 @@ def source_smiles(ctx):
     out += [(f'lowval[{i}]', s) for i, s in enumerate(LOWVAL_RD)]
     out += [(f'isostereo[{i}]', s) for i, s in enumerate(ISO_STEREO)]
     out += [(f'dependent[{i}]', s) for i, s in enumerate(DEPENDENT)]
+    out += [(f'mixed[{i}]', s) for i, s in enumerate(MIXED)]
+    out += [(f'meso[{i}]', s) for i, s in enumerate(MESO)]
     out += donor_smiles(ctx)
     out += isotope_smiles(ctx)
     smis = molgen.corpus_smiles()
@@ -938,7 +1030,7 @@ def correspond(ctx):
         rd0 = Chem.MolFromSmiles(smi, p) if '|' not in smi else None
         if rd0 is None:
             ctx.dist('rdkit-rejects-or-cx')
-        elif not rd_in_domain(rd0):
+        elif not rd_representable(rd0):
             ctx.dist('domain:rdkit-molecule-outside')
         else:
             for vt, rd in rd_variants(ctx, rd0):
@@ -957,13 +1049,15 @@ def correspond(ctx):
                     continue
                 nt = nontrivial(back)
                 s_from.add(line('from', rmol_ints(rd), nbrs_ints(rd)), 'ok ' + ' '.join(map(str, pre)), f'{tag}:rd:{vt}', nt)
+                kind = 'B'
                 try:
-                    bad = judge_B(rd)
+                    kind, bad = judge_B_any(rd)
                 except Exception as e:
                     ctx.dist('B:raises:' + type(e).__name__)
                     bad = [('raises', f'to_rdkit_molecule(from_rdkit_molecule(r)) raised {type(e).__name__}: {str(e)[:120]}')]
-                ctx.count(('B', tag, vt, smi), nt)
-                report(ctx, 'B', f'{tag}:rd:{vt}', smi, bad, {'rd_variant': vt, 'seed': ctx.seed})
+                ctx.count((kind, tag, vt, smi), nt)
+                ctx.dist(kind + ':judged')
+                report(ctx, kind, f'{tag}:rd:{vt}', smi, bad, {'rd_variant': vt, 'seed': ctx.seed})
             x = judge_X(smi)
             if x is None:
                 ctx.dist('X:readers-differ-or-outside')
@@ -1348,14 +1442,14 @@ def search(ctx):
         p = Chem.SmilesParserParams()
         p.removeHs = False
         rd0 = Chem.MolFromSmiles(smi, p)
-        if rd0 is None or not rd_in_domain(rd0):
+        if rd0 is None or not rd_representable(rd0):
             continue
         for vt, rd in rd_variants(ctx, rd0):
             try:
-                bad = judge_B(set_rd_coords(rng, rd))
+                kind, bad = judge_B_any(set_rd_coords(rng, rd))
             except Exception:
                 continue
-            report(ctx, 'B', f'{tag}:rd:{vt}', smi, bad, {'seed': ctx.seed})
+            report(ctx, kind, f'{tag}:rd:{vt}', smi, bad, {'seed': ctx.seed})
         x = judge_X(smi)
         if x:
             report(ctx, 'X', tag, smi, x)
@@ -1380,7 +1474,7 @@ def probe(inp):
     if inp.get('judge') == 'N':
         bad = judge_N(smi) or []
         return bool(bad), (f'{bad[0]}' if bad else f'no label is left on a non-stereogenic centre of {smi}')
-    if inp.get('judge') not in ('A', 'B', 'X'):
+    if inp.get('judge') not in ('A', 'B', 'M', 'X'):
         inp = dict(inp, judge='any')
     if mol is not None and inp.get('judge', 'A') in ('A', 'any'):
         for vtag, m in variants(C, 'probe', mol):
@@ -1391,14 +1485,14 @@ def probe(inp):
                     found += [(vtag, w, d) for w, d in judge_A(m, keep)]
                 except Exception as e:
                     found.append((vtag, raise_kind(m, e), type(e).__name__))
-    if inp.get('judge', 'B') in ('B', 'any') and '|' not in smi:
+    if inp.get('judge', 'B') in ('B', 'M', 'any') and '|' not in smi:
         p = Chem.SmilesParserParams()
         p.removeHs = False
         rd0 = Chem.MolFromSmiles(smi, p)
-        if rd0 is not None and rd_in_domain(rd0):
+        if rd0 is not None and rd_representable(rd0):
             for vt, rd in rd_variants(C, rd0):
                 try:
-                    found += [(vt, w, d) for w, d in judge_B(set_rd_coords(C.rng, rd))]
+                    found += [(vt, w, d) for w, d in judge_B_any(set_rd_coords(C.rng, rd))[1]]
                 except Exception as e:
                     found.append((vt, 'raises', type(e).__name__))
     if inp.get('judge', 'X') in ('X', 'any'):
